@@ -33,6 +33,8 @@ def _differential(chk, lines, name):
     """Model and implementation on the same lines; if the model cannot be built on this tree (a regenerated table does
     not compile) the implementation alone is run and judged by the oracle."""
     try:
+        if any(n.startswith("translator:") and not ok for n, ok, _ in chk.obligations):
+            raise C.BuildError("the tables the model runs on are fallbacks (translator failure): no model for this tree")
         return chk.differential("tmpl", "tmpl", "TestVerifProbeTmpl", lines, name=name)
     except C.BuildError as e:
         chk.obligation("model-builds", False, str(e)[-1500:])
